@@ -53,6 +53,13 @@ def c19(tier):
         evs = [{"ev": "reset", "variant": "opl" if sq["variant"] == "opl" else "legacy"}]
         for e in ob["events"]:
             e = dict(e)
+            if e["ev"] == "stuck":
+                ck.violation("during a sequence of file changes the namespace store stopped answering: listing the namespaces, preceded by the lookup of a name no version "
+                             "configures, had not returned after 10 s (%s watcher), so the last valid version never takes effect" % sq["variant"], {"sequence": sq})
+                continue
+            if e["ev"] == "phantom":
+                ck.violation("a namespace that no version of any file configures was found by name", {"sequence": sq})
+                continue
             if e["ev"] in ("obs", "final"):
                 e.setdefault("o_a", 0); e.setdefault("o_b", 0)
             evs.append(e)
